@@ -476,6 +476,57 @@ def scale_free_guards(repo: Repo) -> RuleRun:
                     key=f"guard#{k}",
                 )
     r.require(n >= 3, f"only {n} uses of the small-number guard found in optimize.cell")
+    # ... and the guard is commensurate with what it guards: the library's small number is a LENGTH scale (1e-6); as the floor of an
+    # area (the norm of a cross product of two edge-like vectors) it must be squared - otherwise it bites for cells a thousand times
+    # larger than intended (faces of about a millimetre) and the 'unit' normals of such faces come out shorter than 1
+    from ..dims import Inhomogeneous, _Unknown, homogeneity
+
+    m_ = 0
+    for fn in sorted(repo.all_functions(), key=lambda f: f.qualname):
+        if fn.module is not mod:
+            continue
+        env = {}
+        k = 0
+
+        def visit(body, fn=fn, env=env):
+            nonlocal m_, k
+            for st in body:
+                if isinstance(st, ast.Assign) and len(st.targets) == 1 and isinstance(st.targets[0], ast.Name):
+                    for c in ast.walk(st.value):
+                        if isinstance(c, ast.Call) and (attr_chain(c.func) or "").split(".")[-1] in ("maximum", "max", "clip", "fmax") and len(c.args) >= 2:
+                            guards = [a for a in c.args if (isinstance(a, ast.Name) and a.id in SMALL) or (isinstance(a, ast.Attribute) and a.attr in SMALL)]
+                            squared = [a for a in c.args if isinstance(a, ast.BinOp) and isinstance(a.op, ast.Pow) and any((isinstance(x, ast.Name) and x.id in SMALL) or (isinstance(x, ast.Attribute) and x.attr in SMALL) for x in ast.walk(a))]
+                            others = [a for a in c.args if a not in guards and a not in squared]
+                            if not (guards or squared) or not others:
+                                continue
+                            try:
+                                deg = homogeneity(others[0], env, {})
+                            except (_Unknown, Inhomogeneous):
+                                continue
+                            m_ += 1
+                            want = deg if isinstance(deg, (int, float)) else None
+                            ok = want is None or (want <= 1 and guards) or (want == 2 and squared)
+                            r.check(
+                                ok,
+                                fn,
+                                f"'{ast.unparse(c)[:60]}': floor commensurate with a quantity of degree {deg}",
+                                f"{fn.qualname}: '{ast.unparse(c)[:80]}' floors a quantity that scales with the cell size to the power {deg} (an area) with the plain small number, which is a length: the floor bites "
+                                "for faces of about a millimetre (edge 1.4e-3: a perfect cube scores 27.9 instead of 0; a box 1 x 0.01 x 0.01 scores 726 at scale 1 and 1413 at scale 0.1) - the measure depends on the size of the cell",
+                                c,
+                                key=f"floor#{k}",
+                            )
+                            k += 1
+                    try:
+                        env[st.targets[0].id] = homogeneity(st.value, env, {})
+                    except (_Unknown, Inhomogeneous):
+                        env.pop(st.targets[0].id, None)
+                for sub in ("body", "orelse", "finalbody"):
+                    inner = getattr(st, sub, None)
+                    if isinstance(inner, list) and inner and isinstance(inner[0], ast.stmt) and not isinstance(st, (ast.FunctionDef, ast.ClassDef)):
+                        visit(inner)
+
+        visit(fn.node.body)
+    r.require(m_ >= 2, f"only {m_} floored quantities of known degree found in optimize.cell")
     return r
 
 
